@@ -87,6 +87,24 @@ pub fn walk<'a>(section: &'a [u8], mut it: TypeLengthValues<'a>, entry: &str) ->
             );
         }
     }
+    // "then stops" holds for every handle on the finished walk: an explicit clone, a bitwise copy, and an iterator that takes
+    // the finished one by value all stay finished
+    #[allow(clippy::clone_on_copy)]
+    for (how, mut again) in [("clone()", it.clone()), ("copy", it), ("into_iter()", it.into_iter())] {
+        if let Some(x) = again.next() {
+            return fail(
+                "item-after-end",
+                format!("None from a {} of the finished iterator ({} items had been yielded)", how, want.len()),
+                match x {
+                    Ok(t) => format!("Ok(kind {}, {} value bytes)", t.kind, t.value.len()),
+                    Err(e) => format!("Err({:?})", e),
+                },
+            );
+        }
+        if again.count() != 0 {
+            return fail("item-after-end", format!("count() == 0 on a {} of the finished iterator", how), "more".into());
+        }
+    }
     Ok(())
 }
 
@@ -335,7 +353,11 @@ pub fn judge_header(x: &Vec<u8>, st: &mut Stats) -> Verdict {
 }
 
 fn gen_slice(t: &mut Tape) -> Vec<u8> {
-    match t.weighted(&[8, 6, 4, 2, 2, 1, 2]) {
+    match t.weighted(&[8, 6, 4, 2, 2, 1, 2, 2]) {
+        7 => {
+            // whole items, then pipelined data on the item boundary (the next header's signature ...): see gen::gen_tlv_section
+            gen::items_then_next_header(t, 600)
+        }
         5 => {
             let mut s = if t.coin() { gen::enc_tlv_list(&gen::gen_tlv_list(t, 200)) } else { vec![] };
             s.extend(gen::deep_nested_tlv(t, 69_000));
